@@ -282,6 +282,9 @@ pub fn unary(s: &Rel, form: Form, top: bool) -> Vec<Rel> {
                 true,
                 false,
             );
+            if let Some(k2) = p.k2 {
+                push("A10", format!("SELECT max({nn}) AS x, count(*) AS y FROM {from} GROUP BY {}", k2.name), vec![out_num("x", n.kind, n.pv, true, false), out_num("y", Kind::I, 1.0, true, true)], vec!["aggregate", "grouped", "key-not-projected"], true, false);
+            }
             push("A7", format!("SELECT count(DISTINCT {kn}) AS x, sum(DISTINCT {nn}) AS y FROM {from}"), vec![out_num("x", Kind::I, 1.0, true, true), out_num("y", n.kind, n.pv * 2.0, true, false)], vec!["aggregate", "ungrouped", "distinct-aggregate"], true, false);
             if let Some(k2) = p.k2 {
                 push(
